@@ -54,8 +54,12 @@ pub enum Use {
     InCow,
     /// `f: Vec<Cow<'static, S<..>>>`
     InVecCow,
+    /// the resolved arguments are not paths: `S<(u8, u16), [u8; 2]>`
+    TupleAndArrayArgs,
+    /// `S<(), Vec<N>>`
+    UnitArg,
 }
-pub const USES: [Use; 16] = [
+pub const USES: [Use; 18] = [
     Use::Root,
     Use::NamedField,
     Use::UnnamedField,
@@ -72,6 +76,8 @@ pub const USES: [Use; 16] = [
     Use::MapValue,
     Use::InCow,
     Use::InVecCow,
+    Use::TupleAndArrayArgs,
+    Use::UnitArg,
 ];
 
 /// (source generics as written, target as written)
@@ -93,6 +99,8 @@ pub fn rule_forms() -> Vec<(&'static str, &'static str)> {
         ("<A, B, C>", "::t::X<C, B, A>"),
         // a fixed extra argument whose LAST segment is spelled like a source parameter: not a parameter
         ("<A, B>", "::t::X<A, ::m::A, B>"),
+        // identity-shaped with FEWER declared generics than the type has: the declared ones only
+        ("<A>", "::t::X<A>"),
     ]
 }
 
@@ -194,6 +202,8 @@ impl SubstState {
                     Use::MapValue => Ty::BTreeMap(b(U8), b(s_ty)),
                     Use::InCow => Ty::Cow(b(s_ty)),
                     Use::InVecCow => Ty::Vec(b(Ty::Cow(b(s_ty)))),
+                    Use::TupleAndArrayArgs => self.s_ty(Ty::Tuple(vec![U8, U16]), Ty::Array(b(U8), 2)),
+                    Use::UnitArg => self.s_ty(Ty::Tuple(vec![]), Ty::Vec(b(n.clone()))),
                     _ => s_ty,
                 };
                 let fields = match use_ {
